@@ -234,6 +234,10 @@ func p2(k uint) *big.Int { return new(big.Int).Lsh(big.NewInt(1), k) }
 // candidate values for a kind (boundary values, wrong types, None)
 func candidates(k string, small bool) []sval {
 	var out []sval
+	long := 300
+	if small {
+		long = 20
+	}
 	addz := func(zs ...*big.Int) {
 		for _, z := range zs {
 			out = append(out, sv(starlark.MakeBigInt(z)))
@@ -265,10 +269,10 @@ func candidates(k string, small bool) []sval {
 	case "bool":
 		out = append(out, sv(starlark.True), sv(starlark.False), sv(starlark.MakeInt(0)), sv(starlark.MakeInt(1)), sv(starlark.None), sv(starlark.String("x")), sv(starlark.Float(1)))
 	case "string":
-		out = append(out, sv(starlark.String("")), sv(starlark.String("abc")), sv(starlark.String(strings.Repeat("x", 300))), sv(starlark.String("h\u00e9\u4e16")),
+		out = append(out, sv(starlark.String("")), sv(starlark.String("abc")), sv(starlark.String(strings.Repeat("x", long))), sv(starlark.String("h\u00e9\u4e16")),
 			sv(starlark.String("\xff\xfe")), sv(starlark.Bytes("abc")), sv(starlark.Bytes("")), sv(starlark.MakeInt(1)), sv(starlark.None), sv(starlark.True))
 	case "bytes":
-		out = append(out, sv(starlark.Bytes("")), sv(starlark.Bytes("\x00\xff")), sv(starlark.Bytes(strings.Repeat("y", 300))), sv(starlark.String("abc")), sv(starlark.String("\xff")),
+		out = append(out, sv(starlark.Bytes("")), sv(starlark.Bytes("\x00\xff")), sv(starlark.Bytes(strings.Repeat("y", long))), sv(starlark.String("abc")), sv(starlark.String("\xff")),
 			sv(starlark.MakeInt(1)), sv(starlark.None), sv(starlark.True))
 	case "float", "double":
 		out = append(out, sv(starlark.Float(0)), sv(starlark.Float(math.Copysign(0, -1))), sv(starlark.Float(1.5)), sv(starlark.Float(1e300)), sv(starlark.Float(math.NaN())),
@@ -1098,6 +1102,36 @@ func main() {
 		var ops []Op
 		if err := json.Unmarshal(data, &ops); err != nil {
 			panic(err)
+		}
+		hx.Emit(runHistory(0, ops))
+	case "shrink":
+		// drop single operations while a frozen message still changes (and no cycle arises)
+		data, err := os.ReadFile(*file)
+		if err != nil {
+			panic(err)
+		}
+		var ops []Op
+		if err := json.Unmarshal(data, &ops); err != nil {
+			panic(err)
+		}
+		fails := func(o []Op) bool {
+			rec := runHistory(0, o)
+			_, bad := rec["freeze_violation"]
+			for _, r := range rec["res"].([]string) {
+				if r == "cycle" {
+					return false
+				}
+			}
+			return bad
+		}
+		for changed := true; changed; {
+			changed = false
+			for k := len(ops) - 1; k >= 0; k-- {
+				cand := append(append([]Op{}, ops[:k]...), ops[k+1:]...)
+				if fails(cand) {
+					ops, changed = cand, true
+				}
+			}
 		}
 		hx.Emit(runHistory(0, ops))
 	case "probe":
